@@ -176,6 +176,9 @@ fn refused_call() -> Call<Refused> {
 #[derive(Debug, Clone)]
 struct Scenario {
     calls: Vec<CallKind>,
+    /// per call: it also carries the protocol's third flag, `upgrade` (which changes nothing about
+    /// what the call is owed)
+    upgrades: Vec<bool>,
     owed: Vec<Owed>,
     foreign: Vec<Owed>,
     /// Use the proxy-generated streaming method instead of a chain (single `more` call).
@@ -299,7 +302,9 @@ fn gen_scenario(t: &mut Tape, borrowed: bool) -> Scenario {
         }
     }
     let abandon_after = if !via_proxy && !borrowed && t.draw(5) == 4 { Some(t.draw(owed.len() + 1)) } else { None };
-    Scenario { calls, owed, foreign, via_proxy, pre_refused, abandon_after }
+    let with_upgrades = !via_proxy && t.draw(4) == 3;
+    let upgrades: Vec<bool> = (0..calls.len()).map(|i| with_upgrades && (i * 7 + calls.len()) % 3 == 0).collect();
+    Scenario { calls, upgrades, owed, foreign, via_proxy, pre_refused, abandon_after }
 }
 
 fn clip(s: &str) -> String {
@@ -587,7 +592,10 @@ impl Prop for Inst {
                 w.cfg.bias = 3;
                 w.cfg.chunk = [Chunk::Whole, Chunk::Frame, Chunk::Byte][delivery].clone();
                 let foreign = if borrowed { vec![] } else { vec![Owed { service_error: false, error: false, unit_error: false, num: 900, text: "later".into(), continues: None, wire: 0 }] };
-                (Scenario { calls, owed, foreign, via_proxy: false, pre_refused: vec![], abandon_after: None }, format!("systematic delivery={delivery}"))
+                {
+                    let upgrades = vec![false; calls.len()];
+                    (Scenario { calls, upgrades, owed, foreign, via_proxy: false, pre_refused: vec![], abandon_after: None }, format!("systematic delivery={delivery}"))
+                }
             } else {
                 w.cfg = Cfg::swarm(&mut w.tape);
                 let sc = gen_scenario(&mut w.tape, borrowed);
@@ -862,7 +870,7 @@ impl Prop for Inst {
                             }
                         }
                     } else {
-                        let mut chain = match conn.chain_call::<MethOut, RepIn<'_>, ErrIn<'_>>(&call_for(0, sc2.calls[0])) {
+                        let mut chain = match conn.chain_call::<MethOut, RepIn<'_>, ErrIn<'_>>(&call_for(0, sc2.calls[0]).set_upgrade(sc2.upgrades[0])) {
                             Ok(c) => c,
                             Err(e) => {
                                 prog2.borrow_mut().fail = Some(("chain/enqueue-failed".into(), format!("{e:?}")));
@@ -870,7 +878,7 @@ impl Prop for Inst {
                             }
                         };
                         for (i, k) in sc2.calls.iter().enumerate().skip(1) {
-                            chain = match chain.append(&call_for(i, *k)) {
+                            chain = match chain.append(&call_for(i, *k).set_upgrade(sc2.upgrades[i])) {
                                 Ok(c) => c,
                                 Err(e) => {
                                     prog2.borrow_mut().fail = Some(("chain/enqueue-failed".into(), format!("{e:?}")));
@@ -940,6 +948,9 @@ impl Prop for Inst {
         for (i, f) in frames.iter().enumerate() {
             let got: Value = serde_json::from_slice(f).map_err(|e| (format!("{id}/wrong-calls-on-wire"), format!("call {i}: {e}")))?;
             let mut want = expected_call_json(i, sc.calls[i], sc.via_proxy);
+            if sc.upgrades[i] {
+                want["upgrade"] = json!(true);
+            }
             // flags may be written explicitly as false
             for k in ["oneway", "more", "upgrade"] {
                 if got.get(k) == Some(&json!(false)) && want.get(k).is_none() {
